@@ -35,9 +35,10 @@ from harness.tlc import check_model, judge, run_tlc, TLCError, NCPU
 # False: they are still built and judged, but rejections are only recorded in the evidence.
 BOUNDARY_IN_GRID = True
 
-FILTERS = "{4}"
+FILTERS = "{4}"                            # the UNet width the real models are built with
+WIDE_FILTERS = "{4, 8, 12, 16, 24, 32, 64}"  # thorough: widths covered by the arithmetic on the spec only
 MC_CFG = "CONSTANT Filters = %s\nINIT Init\nNEXT Next\n%sCHECK_DEADLOCK FALSE\n"
-MC_INVS = "INVARIANT RepairedDesignOK\nINVARIANT AsCodedClassified\nINVARIANT BoundaryNeverBuilds\n"
+MC_INVS = "INVARIANT RepairedDesignOK\nINVARIANT AsCodedClassified\nINVARIANT BoundaryNeverBuilds\nINVARIANT NoRoundingTies\n"
 HIST_CFG = "CONSTANTS MaxCalls = %d\n OddSizes = %s\n WithFresh = %s\nINIT Init\nNEXT Next\n%sCHECK_DEADLOCK FALSE\n"
 TRACE_CFG = "INIT Init\nNEXT Next\nCONSTRAINT Check\nPOSTCONDITION Report\nCHECK_DEADLOCK FALSE\n"
 FIELDS = ("bb", "arch", "ms", "os", "fr", "f", "stem", "cpb", "upi", "mid", "mt", "hs", "parts", "edges")
@@ -104,6 +105,7 @@ def outcome(rec):
 
 def hist_cases(start, res, tier):
     """spec -> code for histories: every maximal path of MC_ArchHist's state graph, per configuration."""
+    from harness.arch_util import frame_size
     from harness.graph import dump_graph
 
     gr, g = dump_graph("MC_ArchHist", HIST_CFG % (3, "FALSE", "FALSE", ""))
@@ -119,7 +121,6 @@ def hist_cases(start, res, tier):
             c["calls"] = [list(h["x"]["ids"]) for h in hist]
             c["fresh"] = True
             for h in hist:  # the sizes the spec used are the ones the driver will feed
-                from harness.arch_util import frame_size
                 if (h["x"]["h"], h["x"]["w"]) != frame_size(c, h["x"]["ids"][0]):
                     raise TLCError("history sizes of spec and driver differ: %r" % (h,))
             cases.append(c)
@@ -166,6 +167,9 @@ def run(tier, seed):
                            workers=2, timeout=900, require_actions=("Build", "Fwd", "Fresh"))
         f_odd = bg.submit(check_model, "MC_ArchHist", HIST_CFG % (3, "TRUE", "TRUE", "INVARIANT Stateless\n"), workers=1, timeout=900,
                           expect_violation=("invariant", "Stateless"))
+        f_wide = None
+        if tier == "thorough":
+            f_wide = bg.submit(check_model, "MC_ArchClasses", MC_CFG % (WIDE_FILTERS, MC_INVS), workers=4, timeout=3000, java_opts=("-Xmx6g",))
 
         # ---- spec -> code: the real Model for every selected configuration --------------------------
         space = load_export(exp)
@@ -233,7 +237,7 @@ def run(tier, seed):
             raise TLCError("as-coded classification not printed / degenerate: %r" % (ok_as_coded,))
         n_ascoded_ok = int(ok_as_coded[-1])
         res.add_mc("MC_Arch grid=%d valid=%d boundary=%d" % (n_grid, n_valid, n_bnd), r,
-                   "RepairedDesignOK, AsCodedClassified, BoundaryNeverBuilds on every InGrid configuration; "
+                   "RepairedDesignOK, AsCodedClassified, BoundaryNeverBuilds, NoRoundingTies on every InGrid configuration; "
                    "as coded only %d of %d valid configurations satisfy the C14 arithmetic" % (n_ascoded_ok, n_valid))
         res.coverage["grid"] = dict(total=n_grid, valid=n_valid, boundary=n_bnd, as_coded_ok=n_ascoded_ok,
                                     rounding_class=rr.printed("ROUNDING")[-1] if rr.printed("ROUNDING") else "")
@@ -244,6 +248,13 @@ def run(tier, seed):
         res.add_mc("MC_ArchHist in-domain sizes", rh, "Stateless over all histories; MaxPool padding state is benign for multiples of max_stride")
         ro = f_odd.result()
         res.add_mc("MC_ArchHist counter-model (sides not multiples of max_stride)", ro, "must violate Stateless")
+        if f_wide is not None:
+            rw = f_wide.result()
+            if rw.violation or not rw.printed("GRID"):
+                raise TLCError("Arch design check (wide filters) failed: %s\n%s" % (rw.violation, rw.out[-2500:]))
+            res.add_mc("MC_ArchClasses filters=%s (spec only)" % WIDE_FILTERS, rw, "same three invariants; grid %s; as coded ok on %s valid configurations" % (
+                rw.printed("GRID")[-1], rw.printed("ASCODED_OK")[-1] if rw.printed("ASCODED_OK") else "?"))
+            res.coverage["grid"]["rounding_class_wide_filters"] = rw.printed("ROUNDING")[-1] if rw.printed("ROUNDING") else ""
         mark("background_models")
         # ---- evidence --------------------------------------------------------------------------------------
         done = [x for x in recs if not x["ev"][0]["raised"] and not x["ev"][-1].get("raised") and len(x["ev"]) >= 3]
